@@ -25,6 +25,7 @@ def qpi (s : Stack) : List (Nat × Out) × List (Dest × List SDEntry) × List C
 @[simp] theorem qpi_with_found (s : Stack) (x : TStore SvcKey) : qpi { s with found := x } = qpi s := rfl
 @[simp] theorem qpi_with_storeLog (s : Stack) (x : List (Bool × SvcKey × Addr)) : qpi { s with storeLog := x } = qpi s := rfl
 @[simp] theorem qpi_with_refreshLog (s : Stack) (x : List (Addr × SvcKey × Nat × Nat)) : qpi { s with refreshLog := x } = qpi s := rfl
+@[simp] theorem qpi_with_armLog (s : Stack) (x : List (Cb × Nat × Nat)) : qpi { s with armLog := x } = qpi s := rfl
 @[simp] theorem qpi_with_found_refreshLog (s : Stack) (x : TStore SvcKey) (y : List (Addr × SvcKey × Nat × Nat)) : qpi { s with found := x, refreshLog := y } = qpi s := rfl
 @[simp] theorem qpi_with_sendLog (s : Stack) (x : List (Dest × (Bool × Nat))) : qpi { s with sendLog := x } = qpi s := rfl
 @[simp] theorem qpi_with_subLog (s : Stack) (x : List (Addr × Nat × List Eventgroup)) : qpi { s with subLog := x } = qpi s := rfl
